@@ -177,6 +177,8 @@ fn instrumented(lines: &[String], replies: &[String], model: Option<&ProgramAst>
 fn nonterminating() -> Vec<(&'static str, Vec<String>)> {
     let mut v: Vec<(&'static str, Vec<String>)> = vec![
         ("GOTO self", vec!["10 GOTO 10".into()]),
+        ("GOTO self on line 0", vec!["0 GOTO 0".into()]),
+        ("counter loop through line 0", vec!["0 X=X+1".into(), "1 GOTO 0".into()]),
         ("counter loop", vec!["10 X=X+1: GOTO 10".into()]),
         ("FOR STEP 0", vec!["10 FOR I=1 TO 2 STEP 0".into(), "20 NEXT I".into()]),
         ("IF THEN self", vec!["10 IF 1 THEN 10".into()]),
